@@ -68,6 +68,11 @@ CHECKS = {
          "Every sequence of updates over values {0,1,3} for 2 chains x 1..2 params (and 3 chains x 1) up to depth 3-4 (quick, 2.3e6 histories) / 4-6 (thorough, 4.7e7) is applied to the real ChainTracker / MultiChainTracker; after EVERY update count, mean, unbiased variance, the EMA recurrence p_k = 0.99 p_{k-1} + 0.01 [moved], collect_rhat vs the classical formula on the trackers' own stats (1e-5) and vs MultiChainTracker::rhat and the batch truth are checked. Long MH-like histories (to 5000 updates, 16 chains, 8 params, f32/f64/i32/u8) are enumerated families.",
          "The EMA's initial value and the multi-chain combination of indicators are left open by the statement (only range/monotonicity demanded). f32 running moments: tolerance c*eps32*max|x|^2*(1+ln n).",
          "DESIGN.md §3 C13"),
+ "C14": ("E1", "model_checking",
+         "invariant checking on every transition of exhaustively enumerated executions: scripted candidates x acceptance draws (MH), injected momenta/uniforms over alphabets with overflowing step sizes (HMC), deviation-bounded choice exploration of the real NUTS transition on targets with bounded support and NaN regions",
+         "After every transition of every explored execution the state must be bit-identical to the previous one or have finite coordinates and a finite log-density under the harness's own copy of the target; no panic; NUTS transitions must end within 2^12 leapfrog steps. MH: 5 bounded-support / NaN-region targets x 12 starts x 17 candidates (outside the support, boundary, +-inf, NaN, 1e308) x symmetric/asymmetric proposal x 4 acceptance draws. HMC: {Gamma(2,1) = ln x - x, sqrt-domain, box, quartic, Student-t} x step sizes {0.1,1,10,1e10,1e30,MAX} x L {1,3} x 7x7 momenta incl. +-1e3 x u {1e-30,1/2,1-ulp}, two consecutive steps, both backends. NUTS: all choice vectors with <= 1-3 deviations (momenta incl. +-1e3, slice variate, directions, merge/accept uniforms) on {Gamma, sqrt-domain, box, quartic, funnel} x 2 starts x step sizes up to overflow, plus whole runs incl. the step-size search from starts next to the support boundary.",
+         "u = 0 is excluded by the statement. Targets are harness types whose out-of-support value is -inf or NaN (natural targets).",
+         "DESIGN.md §3 C14"),
  "C15": ("E4", "exploration",
          "enumeration of a finite parameter/point lattice through the real density, gradient and proposal functions against closed-form f64 definitions",
          "The domain is continuous, so this is exploration over a finite lattice, not model checking: 2-4 means x 5 SPD covariances (cond to 1e4, rotated) x 7x7 points x batch sizes {1,2,3,64} x scalar types {f32,f64} x backends {NdArray<f32>,NdArray<f64>} for Gaussian2D / DiffableGaussian2D (normalised vs unnormalised constant, batched vs single row by row, autodiff gradient = Sigma^-1(mu-x)); Rosenbrock2D/ND values and analytic gradients; IsotropicGaussian logp = -d/2 ln(2 pi s^2) - |d|^2/2s^2, symmetry, integral of exp(logp) = 1 (d=1,2), sample() as a location-scale family of one seeded base stream, set_seed reproducibility.",
